@@ -61,6 +61,8 @@ def project_h1(script: Dict[str, Any], trace: List[Dict[str, Any]]) -> Optional[
                 evs.append({"k": "recv", "r": int(ev["app"]), "m": "disc"})
             else:
                 return None
+        elif e == "app_call" and ev.get("op") == "recv":
+            evs.append({"k": "rcall", "r": int(ev["app"])})
         elif e == "app_call" and ev.get("op") == "send":
             t = ev["m"]["type"]
             if t == "http.response.start":
@@ -105,7 +107,64 @@ def project_h1(script: Dict[str, Any], trace: List[Dict[str, Any]]) -> Optional[
     return {"plan": [{"body": p["body"], "close": bool(p["close"])} for p in plan], "evs": evs}
 
 
-def diagnose(module: str, item: Dict[str, Any], at: int) -> str:
+UNIT = 16384
+
+
+def project_h2(script: Dict[str, Any], trace: List[Dict[str, Any]]) -> Optional[Dict[str, Any]]:
+    """Projection onto the alphabet of TraceH2 (None: outside the design's scope, e.g. a frame that is
+    not a whole number of units)."""
+    sid_of: Dict[str, int] = {}
+    for st in script.get("steps", []):
+        if st.get("s") == "h2" and st.get("op") == "headers":
+            sid_of[str(st["rid"])] = int(st["stream"])
+    evs: List[Dict[str, Any]] = []
+    begun = False
+    body_call: Dict[str, bool] = {}
+    for ev in trace:
+        e = ev["e"]
+        if e == "winddown":
+            break
+        if e == "app_call" and ev.get("op") == "send" and ev["m"]["type"] == "http.response.body":
+            begun = True
+            body_call[ev["app"]] = True
+            evs.append({"k": "end" if not ev["m"].get("more", False) else "push", "s": sid_of[ev["app"]]})
+        elif e == "app_call":
+            body_call[ev["app"]] = False
+        elif e == "app_ret" and body_call.get(ev["app"]):
+            evs.append({"k": "ret", "s": sid_of[ev["app"]]})
+        elif e == "c_frame" and ev.get("kind") == "wupd":
+            if ev["n"] < UNIT:
+                continue  # the one byte that makes the connection window a whole number of units
+            if ev["n"] % UNIT:
+                return None
+            begun = True
+            if ev["stream"] == 0:
+                evs.append({"k": "wuc", "n": ev["n"] // UNIT})
+            else:
+                evs.append({"k": "wus", "s": int(ev["stream"]), "n": ev["n"] // UNIT})
+        elif e == "c_rst":
+            begun = True
+            evs.append({"k": "rst", "s": int(ev["stream"])})
+        elif e == "c_eof":
+            begun = True
+            evs.append({"k": "close"})
+        elif e in ("c_reset", "t_fail", "shutdown"):
+            return None
+        elif e == "wire" and ev.get("kind") == "data" and ev.get("app") in sid_of:
+            if ev.get("len", 0) == 0:
+                continue
+            if ev["len"] % UNIT:
+                return None
+            evs.append({"k": "wdata", "s": sid_of[ev["app"]], "n": ev["len"] // UNIT})
+        elif e == "wire" and ev.get("kind") == "end" and ev.get("app") in sid_of:
+            evs.append({"k": "wend", "s": sid_of[ev["app"]]})
+        elif e == "quiescent" and begun:
+            if not evs or evs[-1]["k"] != "q":
+                evs.append({"k": "q"})
+    return {"evs": evs}
+
+
+def diagnose(module: str, item: Dict[str, Any], at: int, cfg_subst: Optional[Dict[str, str]] = None) -> str:
     """The design states TLC reaches at position `at` of one projected trace (for reading, not parsed)."""
     d = tlc.scratch("dd-" + module)
     try:
@@ -114,6 +173,8 @@ def diagnose(module: str, item: Dict[str, Any], at: int) -> str:
                 shutil.copy(os.path.join(tlc.SPEC, name), d)
         cfg = module + ".cfg"
         text = open(os.path.join(d, cfg)).read().replace("INVARIANT Report", "INVARIANT Diag")
+        for old_, new_ in (cfg_subst or {}).items():
+            text = text.replace(old_, new_)
         open(os.path.join(d, cfg), "w").write(text)
         tf = os.path.join(d, "traces.json")
         json.dump([item], open(tf, "w"))
@@ -126,7 +187,7 @@ def diagnose(module: str, item: Dict[str, Any], at: int) -> str:
 
 
 def validate(module: str, items: List[Dict[str, Any]], timeout: int = 1800, progress: bool = False,
-             keep: bool = False) -> Dict[str, Any]:
+             keep: bool = False, cfg_subst: Optional[Dict[str, str]] = None) -> Dict[str, Any]:
     """Runs TLC on spec/<module>.tla over all projected traces at once.
     Returns {"accepted": set of indices, "reached": {index: highest l} (progress runs only), "states": n}."""
     d = tlc.scratch("dt-" + module)
@@ -135,9 +196,14 @@ def validate(module: str, items: List[Dict[str, Any]], timeout: int = 1800, prog
             if name.endswith(".tla") or name.endswith(".cfg"):
                 shutil.copy(os.path.join(tlc.SPEC, name), d)
         cfg = module + ".cfg"
+        text = open(os.path.join(d, cfg)).read()
         if progress:
-            text = open(os.path.join(d, cfg)).read().replace("INVARIANT Report", "INVARIANT Progress")
-            open(os.path.join(d, cfg), "w").write(text)
+            text = text.replace("INVARIANT Report", "INVARIANT Progress")
+        for old_, new_ in (cfg_subst or {}).items():
+            if old_ not in text:
+                raise tlc.TLCError("configuration %s has no %r to substitute" % (cfg, old_))
+            text = text.replace(old_, new_)
+        open(os.path.join(d, cfg), "w").write(text)
         tf = os.path.join(d, "traces.json")
         with open(tf, "w") as f:
             json.dump(items, f)
@@ -160,24 +226,24 @@ def validate(module: str, items: List[Dict[str, Any]], timeout: int = 1800, prog
             shutil.rmtree(d, ignore_errors=True)
 
 
-def check_h1(jobs: List[Tuple[Dict[str, Any], str]], traces: List[List[Dict[str, Any]]]) -> Dict[str, Any]:
-    """Design conformance of the H1Conn-shaped executions among (jobs, traces)."""
+def check_design(module: str, prefix: str, project, jobs: List[Tuple[Dict[str, Any], str]],
+                 traces: List[List[Dict[str, Any]]], cfg_subst: Optional[Dict[str, str]] = None,
+                 only=None) -> Dict[str, Any]:
     items, where = [], []
     for i, ((sc, w), tr) in enumerate(zip(jobs, traces)):
-        if not str(sc.get("fam", "")).startswith("tlc/H1Conn/"):
+        if not str(sc.get("fam", "")).startswith(prefix) or (only is not None and not only(sc)):
             continue
-        it = project_h1(sc, tr)
+        it = project(sc, tr)
         if it is not None:
             items.append(it)
             where.append(i)
     if not items:
-        return {"checked": 0, "accepted": 0, "drift": []}
-    res = validate("TraceH1", items)
+        return {"checked": 0, "accepted": 0, "drift": [], "states": 0}
+    res = validate(module, items, cfg_subst=cfg_subst)
     drift = []
     rejected = [k for k in range(len(items)) if k not in res["accepted"]]
     if rejected:
-        sub = [items[k] for k in rejected]
-        prog = validate("TraceH1", sub, progress=True)
+        prog = validate(module, [items[k] for k in rejected], progress=True, cfg_subst=cfg_subst)
         for j, k in enumerate(rejected):
             at = prog["reached"].get(j, 1)
             evs = items[k]["evs"]
@@ -185,3 +251,40 @@ def check_h1(jobs: List[Tuple[Dict[str, Any], str]], traces: List[List[Dict[str,
             drift.append({"family": sc.get("fam", ""), "worker": w, "matched_events": at - 1, "of": len(evs),
                           "next_event": evs[at - 1] if at - 1 < len(evs) else None, "job": where[k]})
     return {"checked": len(items), "accepted": len(items) - len(rejected), "drift": drift, "states": res["states"]}
+
+
+def check_h2(jobs: List[Tuple[Dict[str, Any], str]], traces: List[List[Dict[str, Any]]]) -> Dict[str, Any]:
+    """One TLC run per design instance among the executions (stream set, initial stream window, chunks per
+    response are constants of the design)."""
+    def inst(sc: Dict[str, Any]) -> Tuple[str, int, int]:
+        d = sc.get("design") or {}
+        return (d.get("streams", "TwoStreams"), int(d.get("init_win", 1)), int(d.get("max_chunks", 3)))
+
+    insts = sorted(set(inst(sc) for sc, _ in jobs if str(sc.get("fam", "")).startswith("tlc/H2Conn/")))
+    total: Dict[str, Any] = {"checked": 0, "accepted": 0, "drift": [], "states": 0}
+    for it in insts:
+        res = check_design("TraceH2", "tlc/H2Conn/", project_h2, jobs, traces,
+                           cfg_subst={"Streams <- TwoStreams": "Streams <- %s" % it[0], "InitWin = 1": "InitWin = %d" % it[1],
+                                      "MaxChunks = 3": "MaxChunks = %d" % it[2]},
+                           only=lambda sc, it=it: inst(sc) == it)
+        for k in ("checked", "accepted", "states"):
+            total[k] += res[k]
+        total["drift"] += res["drift"]
+    return total
+
+
+def check_h1(jobs: List[Tuple[Dict[str, Any], str]], traces: List[List[Dict[str, Any]]]) -> Dict[str, Any]:
+    """Design conformance of the H1Conn-shaped executions among (jobs, traces); one TLC run per keep-alive
+    timeout (a constant of the design)."""
+    def ka(sc: Dict[str, Any]) -> int:
+        return int((sc.get("design") or {}).get("ka", 2))
+
+    kas = sorted(set(ka(sc) for sc, _ in jobs if str(sc.get("fam", "")).startswith("tlc/H1Conn/")))
+    total: Dict[str, Any] = {"checked": 0, "accepted": 0, "drift": [], "states": 0}
+    for k in kas:
+        res = check_design("TraceH1", "tlc/H1Conn/", project_h1, jobs, traces,
+                           cfg_subst={"KATimeout = 2": "KATimeout = %d" % k}, only=lambda sc, k=k: ka(sc) == k)
+        for key in ("checked", "accepted", "states"):
+            total[key] += res[key]
+        total["drift"] += res["drift"]
+    return total
